@@ -32,6 +32,9 @@ def universe(size):
     for a in pool:
         for b in pool:
             C.append(P.Implies(a, b))
+    from frozendict import frozendict
+    N = P.Instantiate(P._or(P.MetaVar(1), P.MetaVar(2)), frozendict({2: P.Symbol('a')}))
+    C += [P.Implies(N, P.Implies(N, N)), P.Implies(P._or(P.MetaVar(1), P.MetaVar(2)), N), P.Implies(P.MetaVar(0), N)]
     C += [P.MetaVar(2, negative=(P.SVar(0),)), P.Implies(P.MetaVar(2, negative=(P.SVar(0),)), P.MetaVar(0)),
           P.Implies(P.neg(P.MetaVar(0)), P._and(P.EVar(0), P.EVar(1))), P.Implies(P.MetaVar(0), P.ESubst(P.MetaVar(1), P.EVar(0), P.EVar(1))),
           P.Implies(P.MetaVar(0), P.SSubst(P.MetaVar(1), P.SVar(0), P.EVar(0))),
